@@ -249,6 +249,13 @@ class Engine(
                         # before this Deduplication, so we nest the existing
                         # subquery within a new one that has deduplication.
                         return Select.apply_skip(select, deduplication=operation)
+                    elif not select.sort.columns_required <= select.columns:
+                        # The Sort needs columns this Select's own Projection
+                        # drops; SELECT DISTINCT cannot be ordered by them,
+                        # and a subquery would not keep the order.
+                        raise RelationalAlgebraError(
+                            f"Applying {operation} to relation {select} will not preserve row order."
+                        )
                     else:
                         # Move the Deduplication into the Select's
                         # operations.
